@@ -102,3 +102,15 @@ def conjuncts(expr, positive=True) -> List[Tuple[ast.AST, bool]]:
             return out
         return [(expr, positive)]
     return [(expr, positive)]
+
+
+def expanded_facts(A: Analysis, func: FuncInfo, cfg: CFG, node_id: int) -> List[Tuple[ast.AST, bool]]:
+    """Branch facts at a node, with single-assignment boolean locals replaced by the conjuncts of their definition."""
+    out = []
+    for a, pol in cfg.facts_at(node_id):
+        e = subst_single_assign(A, func, a)
+        if e is not a:
+            out.extend(conjuncts(e, pol))
+        else:
+            out.append((a, pol))
+    return out
